@@ -788,7 +788,7 @@ def plan_C09(ctx):
         "Type, and for lists N, LastHVal, More, stored prefix, first/last, min/max expires; through ParseNameAddrPVal (From To Contact PAI), "
         "ParseAllContactValues (capacities 0 1 2 4), ParseAllPAIValues, ParseHeaders and ParseSIPMsg. Keys the statement does not "
         "determine (Name with LWS before '<', duplicate parameter names ...) are not compared.")
-    slices = ["single", "lists", "inmsg", "listsws", "lws", "params3"]
+    slices = ["single", "lists", "inmsg", "listsws", "lws", "params3", "carry"]
     gen_corpus(ctx, 3 if ctx.quick else 4, "cexp", "C09")
     for sl in slices:
         ctx.tlc("MC_GenNameAddr", "MC_GenNameAddr_%s.cfg" % sl, workers=8, min_records=1000)
@@ -913,7 +913,8 @@ def plan_C08(ctx):
         "(double SP, HT, missing token, leading SP, < 14 bytes, non-digit / 2- / 4-digit status) with 'rejected or more'. TLC checks FLineDecl on "
         "the transcription (FLine.tla) for every line and, as a Stream instance, ResumeEqFresh/Stable/OffsSane over steered atom strings; every "
         "record is executed on the real ParseFLine.")
-    ctx.tlc("MC_GenFLine", "MC_GenFLine_rep.cfg" if ctx.quick else "MC_GenFLine_all.cfg", workers=8, min_records=1000, timeout=3000)
+    ctx.tlc("MC_GenFLine", "MC_GenFLine_rep.cfg", workers=8, min_records=1000, timeout=3000)       # representative codes x 5 cut modes
+    if not ctx.quick: ctx.tlc("MC_GenFLine", "MC_GenFLine_all.cfg", workers=8, min_records=1000, timeout=6000)   # all 1000 codes, one call
     ctx.tlc("MC_GenFLine", "MC_GenFLine_code000.cfg", workers=4, min_records=100)
     for c in (["rpl", "req"] if ctx.quick else ["rpl_x", "req_x", "tok_x", "bad_x"]):
         ctx.tlc("MC_FLine", "MC_FLine_%s.cfg" % c, workers=8, min_records=1000, timeout=3000)
